@@ -50,7 +50,7 @@ int main() {
       // independent search: coarse scan of the distance itself, then ternary search around the best sample and around every
       // other sampled local minimum (no derivatives)
       auto dist = [&](Q b) { Q sb, cb; sincosq(b, &sb, &cb); return hypotq(E.a * cb - R, E.b * sb - Z); };
-      const int N = 1 << 13; std::vector<Q> d(N + 1);
+      const int N = 1 << 12; std::vector<Q> d(N + 1);
       for (int i = 0; i <= N; ++i) d[i] = dist(-M_PIq / 2 + M_PIq * i / N);
       Q best = HUGE_VALQ;
       for (int i = 0; i <= N; ++i) {
